@@ -200,6 +200,9 @@ def gen_matrix(spec: dict) -> torch.Tensor:
         cond = spec.get("cond", 100.0)
         s = torch.logspace(0, -math.log10(cond), steps=m, dtype=dt) if m > 1 else torch.ones(1, dtype=dt)
         M = Q1 @ torch.diag(s) @ Q2[:m, :]
+        if spec.get("dup"):  # + an EXACT copy of one row (two objectives with the same gradient), rows shuffled: rank m, m + 1 rows
+            M = torch.cat([M, M[int(torch.randint(m, (1,), generator=g))].unsqueeze(0)])
+            M = M[torch.randperm(m + 1, generator=g)]
     else:
         raise KeyError(kind)
     M = M * spec.get("scale", 1.0)
